@@ -668,6 +668,24 @@ func (w *World) evalCall(env *CEnv, e *CExpr) *Val {
 		}
 		t, _ := w.addrTerm(&Val{Loc: &Loc{kind: "field", base: base.T, styp: et, field: fi, rootT: stt.Field(fi).Type()}})
 		return &Val{T: t, Typ: types.NewPointer(stt.Field(fi).Type())}
+	case "goRegex":
+		// goRegex(v): the language MatchString accepts for the package-level regexp variable v,
+		// translated from the literal in the source on every run
+		if len(args) != 1 || args[0].Op != "id" {
+			unsupported("goRegex needs the name of a package-level regexp variable")
+		}
+		lit, ok := w.regexLiteral(env, args[0].Name)
+		if !ok {
+			unsupported("no regexp literal found for %s", args[0].Name)
+		}
+		smt, err := goRegexToSMT(lit)
+		if err != nil {
+			unsupported("regexp %q: %v", lit, err)
+		}
+		w.assumption("package regexp: MatchString(re, s) holds exactly when s contains a match of the literal (search semantics), translated mechanically to an SMT regular language")
+		return &Val{T: Term{smt, "RegLan"}}
+	case "inRe":
+		return &Val{T: mk(SBool, "str.in_re", ev(0).T, ev(1).T), Typ: boolT}
 	case "old":
 		n := *env
 		n.inOld = true
